@@ -324,7 +324,13 @@ def a5_shared_resource_summed(F, r):
     adds = []
     keyed = False
     overwrite = None
-    for g in F.family(root):
+    fam = list(F.family(root))
+    for g in list(fam):     # + same-module helpers called from the rule (an extracted `add_consumption(map, id, load)` still is the rule's aggregation)
+        for _, t in mir.calls(F.fns[g]):
+            tg = t.get("res") or t["callee"]
+            if tg in F.fns and F.fns[tg]["module"] == F.fns[root]["module"] and F.fns[tg]["kind"] != "Closure" and tg not in fam:
+                fam += F.family(tg)
+    for g in fam:
         fn = F.fns[g]
         for bi, t in mir.calls(fn):
             c = t["callee"]
